@@ -626,6 +626,15 @@ pub fn run_case2(prop: &str, op: u32, toks: &[Tok]) -> Outcome {
         30 => op_filt_hand(toks, prop),
         27 => op_filtercfg(toks, prop),
         28 => op_stable(toks, prop),
+        38 => {
+            // NEW_THEN_STABLE: build a message from the configuration, drop it unwritten, then op 28 on the bytes
+            let mut r = R::new(toks);
+            let c = r.cfg();
+            let sh = r.opt_sh();
+            let built = guarded(|| Message::new(c, sh));
+            drop(built);
+            op_stable(&toks[r.i..], prop)
+        }
         29 => op_streamj(toks, prop),
         _ => crate::ops3::run_case3(prop, op, toks),
     }
